@@ -1,6 +1,8 @@
 import H2V.Lemmas.ConnCtlPViolConn
 import H2V.Lemmas.ConnCtlPViolStreams
 import H2V.Lemmas.ConnCtlPPing
+import H2V.Lemmas.ConnCtlPGoAwayAll
+import H2V.Lemmas.ConnCtlPViolFlow
 /-
   C09 — protocol violations are detected and contained; legal traffic is never penalised.
   Property theorems only (lemmas: `H2V/Lemmas/ConnCtlP*.lean`, notes: `H2V/Lemmas/ConnCtlPNOTES.md`).
@@ -163,19 +165,20 @@ theorem recv_frame_error_ends_poll2 (k : Conn → Conn × PollRes) (c c' : Conn)
   poll2Dispatch_error k c c' frame e h
 
 /-- **a connection error is fatal and answered with GOAWAY** — when `poll2` ends with
-    `Error::GoAway(debug, reason, initiator)` (all the errors above), `handle_poll2_result` answers
-    `Ok` (the state loop goes on to flush and close) and leaves the connection dead — `C15`: it reads
-    no frame and acknowledges nothing any more.  Either a GOAWAY with this reason had been announced
+    `Error::GoAway(debug, reason, initiator)` (all the errors above), in ANY state satisfying the
+    GOAWAY invariant (`C15.goaway_invariant_in_every_reachable_state`: every reachable state),
+    `handle_poll2_result` answers `Ok` (the state loop goes on to flush and close) and leaves the
+    connection dead — `C15.nothing_processed_after_go_away_now`: it reads no frame and acknowledges
+    nothing any more — with the invariant intact.  Either a GOAWAY with this reason had been announced
     before (then the state becomes `Closing(reason)`), or `go_away_now` runs: every stream is failed
-    with the error (`Inner::handle_error`), `close_now` is set, `last_processed_id` and the reason
-    are announced, and the GOAWAY(last_processed_id, reason, debug) frame is pending — unless exactly
-    this GOAWAY was announced already.  (`hinv`: the GOAWAY invariant, which holds in every reachable
-    state — `C15` — and only looks at fields `handle_error` does not write.) -/
-theorem connection_error_is_fatal (c : Conn) (d : Bytes) (r : Reason) (i : Initiator)
-    (hinv : GoAwayInv { c with streams := (c.streams.handleError (.goAway d r i)).1 }) :
+    with the error (`Inner::handle_error`), `close_now` is set, `last_processed_id` (unchanged) and
+    the reason are announced, and the GOAWAY(last_processed_id, reason, debug) frame is pending —
+    unless exactly this GOAWAY was announced already. -/
+theorem connection_error_is_fatal (c : Conn) (d : Bytes) (r : Reason) (i : Initiator) (hi : GoAwayInv c) :
     let c' := (c.handlePoll2Result (.error (.goAway d r i))).1
     let lpi := (c.streams.handleError (.goAway d r i)).1.recv.lastProcessedId
-    (c.handlePoll2Result (.error (.goAway d r i))).2 = .ok () ∧ Dead c' ∧
+    (c.handlePoll2Result (.error (.goAway d r i))).2 = .ok () ∧ Dead c' ∧ GoAwayInv c' ∧
+    lpi = c.streams.recv.lastProcessedId ∧
     ((c'.state = .closing r i ∧ (∃ ga, c.goAway.goingAway = some ga ∧ ga.reason = r) ∧ c'.goAway = c.goAway ∧
         c'.streams = c.streams) ∨
      (Halting c' ∧ c'.streams = (c.streams.handleError (.goAway d r i)).1 ∧ c'.state = c.state ∧
@@ -183,7 +186,35 @@ theorem connection_error_is_fatal (c : Conn) (d : Bytes) (r : Reason) (i : Initi
       (c'.goAway.pending = some { lastStreamId := lpi, reason := r, debugData := d } ∨
        (c'.goAway.pending = c.goAway.pending ∧
         c.goAway.goingAway = some { lastProcessedId := lpi, reason := r })))) :=
-  connection_error_fatal c d r i hinv
+  connection_error_fatal' c d r i hi
+
+/-- non-vacuity: a fresh connection satisfies the invariant; e.g. PROTOCOL_ERROR on it queues
+    GOAWAY(0, PROTOCOL_ERROR) -/
+example : GoAwayInv (Conn.init {}) := goAwayInv_init {}
+example : ((Conn.init {}).handlePoll2Result (.error (.goAway [] PROTOCOL_ERROR .library))).1.goAway.pending =
+    some { lastStreamId := 0, reason := PROTOCOL_ERROR, debugData := [] } := by decide
+
+/-- **flow-control overruns (§6.9.1)**: DATA beyond the connection's receive window — on a
+    receiving stream or on an unknown one — is the connection error FLOW_CONTROL_ERROR and changes
+    nothing; DATA within the connection window but beyond the stream's window is the STREAM error
+    FLOW_CONTROL_ERROR (which `stream_errors_are_contained` turns into a reset of that stream). -/
+theorem flow_control_overruns (s : Streams) :
+    (∀ sz, s.recv.flow.windowSz < sz → s.ignoreData sz = (s, .error (PErr.libraryGoAway FLOW_CONTROL_ERROR))) ∧
+    (∀ id k payload eos, s.store.findKey? id = some k → payload.length ≤ Generated.Consts.MAX_WINDOW_SIZE →
+      (s.stream k).state.isLocalError = false → (s.stream k).state.isRecvStreaming = true →
+      s.recv.flow.windowSz < usizeAsU32 payload.length →
+      (s.recvData id payload eos none).2 = .error (PErr.libraryGoAway FLOW_CONTROL_ERROR)) ∧
+    (∀ s1 k payload eos flowLen u, (s.stream k).state.isLocalError = false → (s.stream k).state.isRecvStreaming = true →
+      s.consumeConnectionWindow (usizeAsU32 flowLen) = (s1, .ok u) →
+      (s1.stream k).recvFlow.windowSz < usizeAsU32 flowLen →
+      recvDataCore s k payload eos flowLen = (s1, .error (PErr.libraryReset (s1.stream k).id FLOW_CONTROL_ERROR))) ∧
+    (∀ id p eos pad, s.recvRecvData id p eos pad =
+      recvDataCore (if p.length + (match pad with | some x => x + 1 | none => 0) > Generated.Consts.MAX_WINDOW_SIZE
+        then s.panic "assertion failed: sz <= MAX_WINDOW_SIZE" else s) id p eos
+        (p.length + (match pad with | some x => x + 1 | none => 0))) :=
+  ⟨ignoreData_overrun s, fun id k p e hk hsz h1 h2 h => recvData_conn_overrun s id k p e hk hsz h1 h2 h,
+   fun s1 k p e n u h1 h2 hc h => recvDataCore_stream_overrun s s1 k p e n u h1 h2 hc h,
+   fun id p e pad => recvRecvData_eq s id p e pad⟩
 
 /-- **stream errors are contained**: a stream-level error (`Error::Reset`) raised while a frame is
     processed is answered in place by `reset_on_recv_stream_err`: the stream is reset through
@@ -260,6 +291,67 @@ theorem tolerated_late_frames (s : Streams) :
    ignoreData_store s, fun id r => recvReset_forgotten s id r, fun id inc => recvWindowUpdate_forgotten s id inc,
    fun id inc k => recvWindowUpdate_send_closed s id inc k⟩
 
+-- ===================================================================== the chain on a concrete connection
+
+/-- a client after its SETTINGS exchange, with `bytes` waiting on the transport -/
+def demoWith (bytes : Bytes) : Conn :=
+  let c0 := Conn.init {}
+  let c1 := (Conn.clientPoll 50 { c0 with codec := { c0.codec with io := { c0.codec.io with rd := [0,0,0,4,0,0,0,0,0] } } }).1
+  let io : Tio := { c1.codec.io with rd := bytes, tx := [] }
+  { c1 with codec := { c1.codec with io := io }, streams := c1.streams.cloneHandle }
+
+/-- what the loop of `Connection::poll2` does with `demoWith bytes`: (the reason of the connection
+    error it ends with, if any; the PING payloads it answered) -/
+def verdict (bytes : Bytes) : Option Nat × List (List Nat) :=
+  let r := poll2LoopT 50 (demoWith bytes)
+  ((match r.1.2 with | .ready (.error (.goAway _ code _)) => some code | _ => none), pongP r.2)
+
+/-- the PING used to see whether the endpoint still answers -/
+def probe : Bytes := [0,0,8,6,0,0,0,0,0, 0xc0,9,0xc0,9,0xc0,9,0xc0,9]
+
+/-- **connection class, end to end** (the links above composed by evaluation on a concrete
+    connection): each of these frames of the harness catalogue, followed by a PING, makes `poll2` end
+    with the connection error PROTOCOL_ERROR (FLOW_CONTROL_ERROR for the window overflow) without
+    answering — or even reading — the PING; `connection_error_is_fatal` says what follows.  PING on a
+    stream; SETTINGS on a stream; RST_STREAM on stream 0; PING of 7 octets; SETTINGS with ENABLE_PUSH
+    = 2; WINDOW_UPDATE(0) on the connection; WINDOW_UPDATE(0) on a stream (a connection error in
+    h2); a connection WINDOW_UPDATE overflowing 2^31-1; DATA on an idle stream; a stray
+    CONTINUATION; PUSH_PROMISE on an unknown stream; RST_STREAM on an idle stream. -/
+theorem connection_class_end_to_end :
+    verdict ([0,0,8,6,0,0,0,0,1, 0,0,0,0,0,0,0,0] ++ probe) = (some 1, []) ∧
+    verdict ([0,0,0,4,0,0,0,0,1] ++ probe) = (some 1, []) ∧
+    verdict ([0,0,4,3,0,0,0,0,0, 0,0,0,8] ++ probe) = (some 1, []) ∧
+    verdict ([0,0,7,6,0,0,0,0,0, 0,0,0,0,0,0,0] ++ probe) = (some 1, []) ∧
+    verdict ([0,0,6,4,0,0,0,0,0, 0,2,0,0,0,2] ++ probe) = (some 1, []) ∧
+    verdict ([0,0,4,8,0,0,0,0,0, 0,0,0,0] ++ probe) = (some 1, []) ∧
+    verdict ([0,0,4,8,0,0,0,0,1, 0,0,0,0] ++ probe) = (some 1, []) ∧
+    verdict ([0,0,4,8,0,0,0,0,0, 0x7f,0xff,0xff,0xff] ++ probe) = (some 3, []) ∧
+    verdict ([0,0,3,0,0,0,0,0,5, 1,2,3] ++ probe) = (some 1, []) ∧
+    verdict ([0,0,1,9,4,0,0,0,1, 0x88] ++ probe) = (some 1, []) ∧
+    verdict ([0,0,7,5,4,0,0,0,1, 0,0,0,2,0x82,0x86,0x84] ++ probe) = (some 1, []) ∧
+    verdict ([0,0,4,3,0,0,0,0,7, 0,0,0,8] ++ probe) = (some 1, []) := by
+  decide
+
+/-- **tolerated class, end to end**: after an unknown frame type (on the connection or on a stream),
+    an unknown setting, a PRIORITY frame on an idle stream (also one depending exclusively on
+    another stream), a PING ACK nobody asked for — `poll2` ends with no error and has answered the
+    PING that follows. -/
+theorem tolerated_class_end_to_end :
+    verdict ([0,0,8,0x42,0xff,0,0,0,0, 1,2,3,4,5,6,7,8] ++ probe) = (none, [[0xc0,9,0xc0,9,0xc0,9,0xc0,9]]) ∧
+    verdict ([0,0,0,0x17,0,0,0,0,3] ++ probe) = (none, [[0xc0,9,0xc0,9,0xc0,9,0xc0,9]]) ∧
+    verdict ([0,0,6,4,0,0,0,0,0, 0,0x99,0,0,0,7] ++ probe) = (none, [[0xc0,9,0xc0,9,0xc0,9,0xc0,9]]) ∧
+    verdict ([0,0,5,2,0,0,0,0,7, 0,0,0,0,200] ++ probe) = (none, [[0xc0,9,0xc0,9,0xc0,9,0xc0,9]]) ∧
+    verdict ([0,0,5,2,0,0,0,0,8, 0x80,0,0,3,0] ++ probe) = (none, [[0xc0,9,0xc0,9,0xc0,9,0xc0,9]]) ∧
+    verdict ([0,0,8,6,1,0,0,0,0, 9,9,9,9,9,9,9,9] ++ probe) = (none, [[0xc0,9,0xc0,9,0xc0,9,0xc0,9]]) := by
+  decide
+
+/-- WINDOW_UPDATE with a zero increment on a STREAM: RFC 9113 §6.9 asks for a stream error; h2
+    rejects the frame in `decode_frame`, before any stream is looked at — a connection error
+    (stricter than required, never laxer) -/
+theorem window_update_zero_on_stream_is_connection_error (r : Reader) (hp : r.partialBlk = none) :
+    decodeFrame r [0,0,4,8,0,0,0,0,1, 0,0,0,0] = (r, connErr) :=
+  decode_windowUpdate_zero r _ hp (by decide) (by decide)
+
 end H2V.Props.C09
 
 #print axioms H2V.Props.C09.framing_violations
@@ -271,7 +363,11 @@ end H2V.Props.C09
 #print axioms H2V.Props.C09.idle_iff
 #print axioms H2V.Props.C09.recv_frame_error_ends_poll2
 #print axioms H2V.Props.C09.connection_error_is_fatal
+#print axioms H2V.Props.C09.flow_control_overruns
 #print axioms H2V.Props.C09.stream_errors_are_contained
 #print axioms H2V.Props.C09.tolerated_framing
 #print axioms H2V.Props.C09.tolerated_priority
 #print axioms H2V.Props.C09.tolerated_late_frames
+#print axioms H2V.Props.C09.connection_class_end_to_end
+#print axioms H2V.Props.C09.tolerated_class_end_to_end
+#print axioms H2V.Props.C09.window_update_zero_on_stream_is_connection_error
